@@ -25,6 +25,9 @@ var c16Rules = []string{"!q", "!x\nq", "q", "*", "!*", "a\n!b\n", "# c\n\n!q\n",
 
 var c16Cwds = []string{"/w", "/", "/w/s", "/w/e"}
 
+// the relative spelling of /w/s from each of these
+var c16RelSpelling = []string{"s", "w/s", ".", "../s"}
+
 // HarnessC16Spelling: Pack(src) for every spelling of /w/s (relative, absolute, dot segments,
 // trailing slash, via a root symlink) from several working directories equals Pack("/w/s").
 func HarnessC16Spelling() {
@@ -36,12 +39,20 @@ func HarnessC16Spelling() {
 	envBaseline()
 	envChdir("/w")
 	_, err0 := p.Pack(packSrc, envWriter())
-	verif.Assume(err0 == nil)
 	canon := c16Key(envTarWritten())
 	envTarResetOutput()
 
-	cwd := c16Cwds[verif.Choose("cwd", len(c16Cwds))]
+	ci := verif.Choose("cwd", len(c16Cwds))
+	cwd := c16Cwds[ci]
 	envChdir(cwd)
+	if err0 != nil {
+		// a tree that cannot be packed as "/w/s" from /w cannot be packed from elsewhere either
+		// (one relative spelling per working directory)
+		_, err := p.Pack(c16RelSpelling[ci], envWriter())
+		verif.Reach("refused-tree-respelled")
+		verif.Assert("C16-same-directory-packs", err != nil)
+		return
+	}
 	src := verif.String("src", 1, verif.Param("nSrc", 5))
 	verif.Assume(noNUL(src))
 	verif.Assume(envRealPath(src) == packSrc) // the spelling denotes the same directory
